@@ -46,6 +46,32 @@ def run(chk: Check, proj: Project) -> None:
     s4(chk, proj)
     s5(chk, proj)
     s6(chk, proj)
+    s7(chk, proj)
+    from .C17 import s5_accessors
+
+    s5_accessors(chk, proj, ["MULTILINE_TAGS"], rule="S8")
+
+
+def s7(chk: Check, proj: Project) -> None:
+    chk.rule("S7", "block state reaches components: the isolated copy shares the caller's render_context object, and the layer pushed around a component render inherits the current BlockContext")
+    m, f = proj.func("context", "make_isolated_context_copy")
+    fresh = next((x.targets[0].id for x in body_walk(f) if isinstance(x, ast.Assign) and isinstance(x.value, ast.Call) and isinstance(x.value.func, ast.Attribute) and x.value.func.attr == "new" and isinstance(x.targets[0], ast.Name)), None)
+    src = params(f)[0]
+    ok = any(isinstance(st, ast.Assign) and norm(st.targets[0]) == f"{fresh}.render_context" and norm(st.value) == f"{src}.render_context" for st in stmts(f))
+    chk.ob("S7", "context:make_isolated_context_copy:shares-render_context", m.loc(f), ok,
+           "the isolated copy uses the caller's render_context object (Context.new() alone only copies it)" if ok else
+           "the isolated copy no longer shares the caller's render_context: the block layer pushed for the component is missing from the outer context, so a {% block %} inside a fill loses the child template's override in isolated mode")
+    r = proj.try_func("component", "Component._render_with_id") or proj.try_func("component", "Component._render_impl")
+    mm, ff = r  # type: ignore[misc]
+    ps = [c for c in calls(ff, "push") if norm(c.func.value).endswith(".render_context") and c.args and isinstance(c.args[0], ast.Dict)]  # type: ignore[union-attr]
+    okp = False
+    for c in ps:
+        for k, v in zip(c.args[0].keys, c.args[0].values):
+            if k is not None and norm(k) == "BLOCK_CONTEXT_KEY":
+                okp = isinstance(v, ast.Call) and isinstance(v.func, ast.Attribute) and v.func.attr == "get" and norm(v.func.value).endswith(".render_context") and v.args and norm(v.args[0]) == "BLOCK_CONTEXT_KEY"
+    chk.ob("S7", "component:render:pushed-layer-inherits-block-context", mm.loc(ps[0]) if ps else mm.loc(ff), okp if ps else None,
+           "the pushed render-context layer carries the CURRENT BlockContext (render_context.get(BLOCK_CONTEXT_KEY, ...))" if okp else
+           "the layer pushed around the component render starts from a fresh BlockContext instead of the current one: a component that relays its slot no longer knows the page's blocks, so {% block %} overrides inside fills are lost")
 
 
 def _upstream() -> Tuple[Dict[str, ast.FunctionDef], str, str]:
